@@ -364,6 +364,8 @@ def check_case(case):
                 if where.startswith("ext-content"):
                     inner = '{"extension-definition--3f2504e0-4f89-41d3-9a0c-0305e82c3301": {"extension_type": "property-extension", "deep": %s}}' % inner
                     payload = base[:-1] + ', "extensions": %s}' % inner
+                elif where == "toplevel-ext-prop":
+                    payload = base[:-1] + ', "extensions": {"extension-definition--3f2504e0-4f89-41d3-9a0c-0305e82c3301": {"extension_type": "toplevel-property-extension"}}, "toplevel_deep": %s}' % inner
                 else:
                     payload = base[:-1] + ', "%s": %s}' % (where, inner)
         else:
@@ -372,6 +374,9 @@ def check_case(case):
                 payload = junk
             elif where.startswith("ext-content"):
                 payload = dict(case["doc"], extensions={"extension-definition--3f2504e0-4f89-41d3-9a0c-0305e82c3301": {"extension_type": "property-extension", "deep": junk}})
+            elif where == "toplevel-ext-prop":
+                # a property the object owes to an unregistered top-level extension: taken over without a property class of its own
+                payload = dict(case["doc"], extensions={"extension-definition--3f2504e0-4f89-41d3-9a0c-0305e82c3301": {"extension_type": "toplevel-property-extension"}}, toplevel_deep=junk)
             else:
                 payload = dict(case["doc"], **{where: junk})
         import stix2
@@ -754,7 +759,7 @@ def run(ctx):
     }
     for depth in (10, 100, 1000, 1500, 5000, 20000):
         for kind in ("list", "dict"):
-            for host, where in (("identity", "document"), ("identity", "labels"), ("identity", "extensions"), ("identity", "x_custom"), ("identity", "ext-content"),
+            for host, where in (("identity", "document"), ("identity", "labels"), ("identity", "extensions"), ("identity", "x_custom"), ("identity", "ext-content"), ("identity", "toplevel-ext-prop"),
                                 ("file-no-id", "ext-content"), ("network-traffic-no-id", "ext-content"), ("file-with-id", "ext-content"), ("file-no-id", "hashes"),
                                 ("network-traffic-no-id", "ipfix"), ("identity", "bundle-in-bundle"), ("identity", "selector-walk"), ("identity", "parse_observable"),
                                 ("marking", "definition"), ("marking", "definition-text")):
@@ -789,13 +794,13 @@ def run(ctx):
     grid = sorted(set(range(limit - 500, limit + 151, 50 if ctx.quick else 10)) | {limit - 1, limit, limit + 1, limit + 49, limit + 51})
     if ctx.worker is not None:
         grid = grid[ctx.worker::int(os.environ.get("VERIF_WORKERS", "14"))]
-    sites = [("identity", "selector-deep"), ("identity", "selector-walk"), ("identity", "x_custom"), ("identity", "ext-content"), ("file-no-id", "ext-content"),
+    sites = [("identity", "selector-deep"), ("identity", "selector-walk"), ("identity", "x_custom"), ("identity", "ext-content"), ("identity", "toplevel-ext-prop"), ("file-no-id", "ext-content"),
              ("file-no-id", "hashes"), ("identity", "bundle-in-bundle"), ("marking", "definition")]
     batches = []
     for depth in grid:
         batch = []
         for kind in ("list", "dict"):
-            for host, where in sites if not ctx.quick else sites[:4]:
+            for host, where in sites if not ctx.quick else sites[:5]:
                 for as_text, via in ((False, None), (True, None), (False, "constructor")):
                     if via and where in ("bundle-in-bundle",):
                         continue
